@@ -65,6 +65,14 @@ pub fn check_instant(z: &hook::Zone, m: &Model, u: i64, obs: &mut Obs) -> Result
     Ok(())
 }
 
+/// (1) only: the offset in force at an instant
+pub fn check_instant_offset(z: &hook::Zone, m: &Model, u: i64) -> Result<(), String> {
+    let exp = m.offset_at(u);
+    let got = call("offset_at", || hook::offset_at(z, u))?.map_err(|e| format!("offset_at({u}) = Err({e})"))?;
+    ensure!(got == exp, "offset at instant {u}: got {got}, zone data prescribe {exp}");
+    Ok(())
+}
+
 pub fn check_wall(z: &hook::Zone, m: &Model, w: i64, obs: &mut Obs) -> Result<(), String> {
     let n = match ndt_of_unix(w) { Some(n) => n, None => return Ok(()) };
     let s = m.preimage(w);
@@ -213,7 +221,7 @@ impl SubCheck for Rules {
     }
     fn strategy(&self) -> Option<BoxedStrategy<RCase>> {
         let years = proptest::collection::vec(prop_oneof![4 => 1900i64..2100, 2 => cal::MIN_YEAR + 2..cal::MAX_YEAR - 2, 1 => proptest::sample::select(vec![cal::MIN_YEAR + 2, cal::MAX_YEAR - 2, 0, -1, 1, 9999, 10_000])], 1..4);
-        Some((prop_oneof![6 => alt_rule(false), 1 => fixed_rule()], any::<bool>(), years).prop_map(|(rule, explicit, years)| RCase { rule, explicit, years }).boxed())
+        Some((prop_oneof![6 => alt_rule(false), 1 => fixed_rule(), 1 => crate::gen::zone::short_dst_rule()], any::<bool>(), years).prop_map(|(rule, explicit, years)| RCase { rule, explicit, years }).boxed())
     }
     fn check(&self, c: &RCase, obs: &mut Obs) -> Result<(), String> {
         let s = c.rule.to_tz_string(c.explicit);
@@ -239,6 +247,21 @@ impl SubCheck for Rules {
             extra.push(cal::days_from_civil(*y, 12, 25) * 86_400 + 7);
         }
         let (inst, wall) = probes(&m, &extra);
+        if !c.rule.well_inside_year() {
+            // daylight time of zero or very short length: the instant direction only (the wall-clock
+            // classes of the statement presuppose separate transitions)
+            obs.label("short_or_empty_daylight_period_instants_only");
+            for u in inst {
+                if known::active("F22") {
+                    // F22: the wall-clock lookup assumes separate transitions; the offset direction is still judged
+                    obs.excluded_known("F22");
+                    check_instant_offset(&z, &m, u).map_err(|e| format!("TZ={s}: {e}"))?;
+                } else {
+                    check_instant(&z, &m, u, obs).map_err(|e| format!("TZ={s}: {e}"))?;
+                }
+            }
+            return Ok(());
+        }
         for u in inst { check_instant(&z, &m, u, obs).map_err(|e| format!("TZ={s}: {e}"))?; }
         for w in wall { check_wall(&z, &m, w, obs).map_err(|e| format!("TZ={s}: {e}"))?; }
         Ok(())
@@ -321,9 +344,30 @@ pub fn child(req_json: &str) -> i32 {
         let after = Local::now().date_naive();
         if before == after { resp.today_ok = Some(today == before); }
     }
+    let mut prev: Option<chrono::NaiveDateTime> = None;
     for &u in &req.inst {
         let mut rs: Vec<(String, Result<i32, String>)> = vec![];
         if let Some(n) = ndt_of_unix(u) {
+            // arriving at this instant by arithmetic from the previous probe (usually on the other side of a
+            // transition): the value carries the offset in force at the instant it arrives at
+            if let Some(p) = prev {
+                let d = n.signed_duration_since(p);
+                let chk = move |x: DateTime<Local>| if x.naive_utc() != n { i32::MIN } else { x.offset().fix().local_minus_utc() };
+                rs.push(("arithmetic: previous + d".into(), g(&mut || chk(Local.from_utc_datetime(&p) + d))));
+                rs.push(("arithmetic: previous - (-d)".into(), g(&mut || chk(Local.from_utc_datetime(&p) - (-d)))));
+                rs.push(("arithmetic: previous += d".into(), g(&mut || { let mut x = Local.from_utc_datetime(&p); x += d; chk(x) })));
+                rs.push(("arithmetic: previous -= -d".into(), g(&mut || { let mut x = Local.from_utc_datetime(&p); x -= -d; chk(x) })));
+                rs.push(("arithmetic: checked_add_signed".into(), g(&mut || Local.from_utc_datetime(&p).checked_add_signed(d).map(chk).unwrap_or(i32::MIN + 1))));
+                rs.push(("arithmetic: checked_sub_signed".into(), g(&mut || Local.from_utc_datetime(&p).checked_sub_signed(-d).map(chk).unwrap_or(i32::MIN + 1))));
+                if let Ok(sd) = d.to_std() {
+                    rs.push(("arithmetic: previous + std Duration".into(), g(&mut || chk(Local.from_utc_datetime(&p) + sd))));
+                    rs.push(("arithmetic: previous += std Duration".into(), g(&mut || { let mut x = Local.from_utc_datetime(&p); x += sd; chk(x) })));
+                } else if let Ok(sd) = (-d).to_std() {
+                    rs.push(("arithmetic: previous - std Duration".into(), g(&mut || chk(Local.from_utc_datetime(&p) - sd))));
+                    rs.push(("arithmetic: previous -= std Duration".into(), g(&mut || { let mut x = Local.from_utc_datetime(&p); x -= sd; chk(x) })));
+                }
+            }
+            prev = Some(n);
             rs.push(("offset_from_utc_datetime".into(), g(&mut || Local.offset_from_utc_datetime(&n).fix().local_minus_utc())));
             rs.push(("from_utc_datetime".into(), g(&mut || { let d = Local.from_utc_datetime(&n); if d.naive_utc() != n { return i32::MIN; } d.offset().fix().local_minus_utc() })));
             rs.push(("with_timezone".into(), g(&mut || { let d = Utc.from_utc_datetime(&n).with_timezone(&Local); if d.naive_utc() != n { return i32::MIN; } d.offset().fix().local_minus_utc() })));
@@ -363,6 +407,16 @@ pub fn child(req_json: &str) -> i32 {
             rs.push(("offset_from_local_date".into(), gv(&mut || mlt(Local.offset_from_local_date(&n.date()).map(|o| o.local_minus_utc())))));
             rs.push(("from_local_date".into(), gv(&mut || mlt(Local.from_local_date(&n.date()).map(|d| d.offset().fix().local_minus_utc())))));
             rs.push(("ymd_opt".into(), gv(&mut || mlt(Local.ymd_opt(n.year(), n.month(), n.day()).map(|d| d.offset().fix().local_minus_utc())))));
+            // deprecated Date<Local> + time of day: the zone is asked again for the full wall-clock time
+            // (sentinel i32::MAX = the date itself has no single offset, nothing to judge)
+            rs.push(("date.and_time".into(), gv(&mut || match Local.from_local_date(&n.date()).single() {
+                None => vec![i32::MAX],
+                Some(d) => d.and_time(n.time()).map(|x| if x.naive_local() != n { i32::MIN } else { x.offset().fix().local_minus_utc() }).into_iter().collect(),
+            })));
+            rs.push(("date.and_hms_opt".into(), gv(&mut || match Local.from_local_date(&n.date()).single() {
+                None => vec![i32::MAX],
+                Some(d) => d.and_hms_opt(n.hour(), n.minute(), n.second()).map(|x| if x.naive_local() != n.with_nanosecond(0).unwrap_or(n) { i32::MIN } else { x.offset().fix().local_minus_utc() }).into_iter().collect(),
+            })));
         }
         resp.wall.push(rs);
     }
@@ -394,7 +448,7 @@ impl SubCheck for LocalRoutes {
         "local_routes"
     }
     fn rule(&self) -> &'static str {
-        "case = a zone named through TZ (generated POSIX rule, a file of the system database by relative name, or a generated TZif file - up to 12,000 transitions - by absolute path) in a child process; every public route from Local to the two lookups (offset_from_utc_datetime, from_utc_datetime, with_timezone, From<DateTime<Utc>>, timestamp_opt, the Display/FromStr, serde_json and bincode round trips of the Local value, offset_from_local_datetime, from_local_datetime, and_local_timezone, with_ymd_and_hms, and the deprecated date routes at 00:00:00 of the date) answers what the zone data prescribe, probed around the transitions, inside gaps and folds and at the midnights next to them; non-trivial = a probe inside a gap or fold, or a midnight within a day of a transition"
+        "case = a zone named through TZ (generated POSIX rule, a file of the system database by relative name, or a generated TZif file - up to 12,000 transitions - by absolute path) in a child process; every public route from Local to the two lookups (offset_from_utc_datetime, from_utc_datetime, with_timezone, From<DateTime<Utc>>, timestamp_opt, the Display/FromStr, serde_json and bincode round trips of the Local value, offset_from_local_datetime, from_local_datetime, and_local_timezone, with_ymd_and_hms, the deprecated date routes at 00:00:00 of the date, the deprecated Date<Local> + time of day, and arriving at the instant by +, -, +=, -=, checked_add/sub_signed or a std Duration from the previous probe) answers what the zone data prescribe, probed around the transitions, inside gaps and folds and at the midnights next to them; non-trivial = a probe inside a gap or fold, or a midnight within a day of a transition"
     }
     fn strategy(&self) -> Option<BoxedStrategy<LCase>> {
         let files: Vec<String> = system_files().into_iter().filter_map(|p| p.strip_prefix("/usr/share/zoneinfo/").map(String::from)).filter(|n| !n.starts_with("right/") && !n.starts_with("posix/")).collect();
@@ -500,7 +554,12 @@ impl SubCheck for LocalRoutes {
                 let pre = m.preimage(at);
                 if pre.len() > 2 { obs.label("wall_three_or_more_times_not_claimed"); continue; }
                 obs.nt_if(pre.len() != 1, "gap_or_fold");
-                let exp: Vec<i32> = pre.iter().map(|u| (at - u) as i32).collect();
+                let mut exp: Vec<i32> = pre.iter().map(|u| (at - u) as i32).collect();
+                if route.starts_with("date.and_") {
+                    if *got == vec![i32::MAX] { obs.label("date_without_single_offset"); continue; }
+                    // Option-valued: the unique reading or nothing
+                    if exp.len() != 1 { exp.clear(); }
+                }
                 ensure!(*got == exp, "TZ={tzval}: Local route {route} for wall clock {w} (looked up at {at}): got offsets {got:?}, zone data prescribe {exp:?}");
             }
         }
@@ -553,7 +612,20 @@ fn probe_f12() -> bool {
     }
 }
 
+/// F22: daylight time of zero length still carves a gap out of the wall clock
+fn probe_f22() -> bool {
+    match hook::zone_from_tz_string("AAA0DDD-0:30,M3.2.0/1,M3.2.0/1:30") {
+        Ok(z) => {
+            let n = chrono::NaiveDate::from_ymd_opt(2023, 3, 12).unwrap().and_hms_opt(1, 0, 1).unwrap();
+            !matches!(hook::offsets_for_local(&z, n), Ok(MappedLocalTime::Single(0)))
+        }
+        Err(_) => false,
+    }
+}
+
 pub fn run(ctx: &Ctx) {
+    known::activate("F22", probe_f22());
+    if known::active("F22") { ctx.known_finding("F22", "a POSIX rule whose daylight time ends less than two days after it starts (down to zero length) is looked up on the wall clock as if the two transitions were far apart: TZ=AAA0DDD-0:30,M3.2.0/1,M3.2.0/1:30 (daylight time never applies), local 2023-03-12 01:00:01 -> not Single(+00:00)"); }
     known::activate("F11", probe_f11());
     known::activate("F12", probe_f12());
     if known::active("F11") { ctx.known_finding("F11", "every repeated wall-clock time is returned latest first: TZ=CET-1CEST,M3.5.0,M10.5.0/3, local 2023-10-29 02:30 -> Ambiguous(+01:00, +02:00)"); }
